@@ -255,36 +255,7 @@ func cmp(a, b interface{}) int {
 	return 1
 }
 
-func match(doc, filter bson.D) bool {
-	for _, f := range filter {
-		v, present := get(doc, f.Key)
-		if ops, ok := f.Value.(bson.D); ok && len(ops) > 0 && len(ops[0].Key) > 0 && ops[0].Key[0] == '$' {
-			for _, o := range ops {
-				switch o.Key {
-				case "$gte":
-					if !present || cmp(v, o.Value) < 0 {
-						return false
-					}
-				case "$lte":
-					if !present || cmp(v, o.Value) > 0 {
-						return false
-					}
-				case "$exists":
-					if present != o.Value.(bool) {
-						return false
-					}
-				default:
-					panic("unsupported filter op " + o.Key)
-				}
-			}
-			continue
-		}
-		if !present || cmp(v, f.Value) != 0 {
-			return false
-		}
-	}
-	return true
-}
+func match(doc, filter bson.D) bool { return matchFilter(doc, filter) }
 
 func clone(d bson.D) bson.D {
 	b, _ := bson.Marshal(d)
@@ -301,40 +272,7 @@ func same(a, b bson.D) bool {
 
 func applyUpdate(doc bson.D, u bson.D, isInsert bool) bson.D {
 	if len(u) > 0 && len(u[0].Key) > 0 && u[0].Key[0] == '$' {
-		for _, op := range u {
-			fields, _ := op.Value.(bson.D)
-			switch op.Key {
-			case "$set":
-				for _, f := range fields {
-					doc = set(doc, f.Key, f.Value)
-				}
-			case "$inc":
-				for _, f := range fields {
-					cur, ok := get(doc, f.Key)
-					if !ok {
-						doc = set(doc, f.Key, f.Value)
-						continue
-					}
-					a, _ := num(cur)
-					b, _ := num(f.Value)
-					switch cur.(type) {
-					case int32:
-						doc = set(doc, f.Key, int32(a+b))
-					case int64:
-						doc = set(doc, f.Key, int64(a+b))
-					default:
-						doc = set(doc, f.Key, a+b)
-					}
-				}
-			case "$currentDate":
-				for _, f := range fields {
-					doc = set(doc, f.Key, primitive.NewDateTimeFromTime(time.Now()))
-				}
-			default:
-				panic("unsupported update op " + op.Key)
-			}
-		}
-		return doc
+		return applyOps(doc, u, isInsert)
 	}
 	// replacement
 	id, _ := get(doc, "_id")
@@ -393,6 +331,9 @@ func (s *Server) exec(c *Cmd) bson.D {
 			}
 			if dup {
 				werrs = append(werrs, bson.D{{"index", int32(i)}, {"code", int32(11000)}, {"errmsg", fmt.Sprintf("E11000 duplicate key error collection: %s dup key: { _id: %v }", ns, id)}})
+				if ord, given := get(c.Doc, "ordered"); given && ord == false {
+					continue
+				}
 				break
 			}
 			s.colls[ns] = append(s.colls[ns], clone(d))
@@ -426,46 +367,69 @@ func (s *Server) exec(c *Cmd) bson.D {
 		}
 		return bson.D{{"n", int32(n)}, {"ok", 1.0}}
 	case "find":
-		filter, _ := get(c.Doc, "filter")
-		fd, _ := filter.(bson.D)
-		var res []bson.D
-		for _, e := range s.colls[ns] {
-			if match(e, fd) {
-				res = append(res, e)
+		res := s.query(ns, subDoc(c.Doc, "filter"), subDoc(c.Doc, "sort"), intOpt(c.Doc, "skip"), intOpt(c.Doc, "limit"))
+		if pr := subDoc(c.Doc, "projection"); len(pr) > 0 {
+			var out []bson.D
+			for _, d := range res {
+				out = append(out, project(d, pr))
 			}
+			res = out
 		}
-		if so, ok := get(c.Doc, "sort"); ok {
-			sd := so.(bson.D)
-			if len(sd) > 0 {
-				k := sd[0].Key
-				dir, _ := num(sd[0].Value)
-				sort.SliceStable(res, func(i, j int) bool {
-					a, _ := get(res[i], k)
-					b, _ := get(res[j], k)
-					if dir < 0 {
-						return cmp(a, b) > 0
+		return cursorReply(ns, res)
+	case "count":
+		res := s.query(ns, subDoc(c.Doc, "query"), nil, intOpt(c.Doc, "skip"), intOpt(c.Doc, "limit"))
+		return bson.D{{"n", int32(len(res))}, {"ok", 1.0}}
+	case "aggregate":
+		return s.aggregate(ns, c)
+	case "distinct":
+		key, _ := get(c.Doc, "key")
+		ks, _ := key.(string)
+		vals := bson.A{}
+		for _, d := range s.query(ns, subDoc(c.Doc, "query"), nil, 0, 0) {
+			if v, ok := getPath(d, ks); ok {
+				dup := false
+				for _, e := range vals {
+					if cmp(e, v) == 0 {
+						dup = true
 					}
-					return cmp(a, b) < 0
-				})
+				}
+				if !dup {
+					vals = append(vals, v)
+				}
 			}
 		}
-		if lim, ok := get(c.Doc, "limit"); ok {
-			l, _ := num(lim)
-			if l > 0 && len(res) > int(l) {
-				res = res[:int(l)]
+		return bson.D{{"values", vals}, {"ok", 1.0}}
+	case "getMore":
+		return bson.D{{"cursor", bson.D{{"id", int64(0)}, {"ns", ns}, {"nextBatch", bson.A{}}}}, {"ok", 1.0}}
+	case "killCursors":
+		return bson.D{{"cursorsKilled", bson.A{}}, {"cursorsNotFound", bson.A{}}, {"cursorsAlive", bson.A{}}, {"cursorsUnknown", bson.A{}}, {"ok", 1.0}}
+	case "create":
+		if _, ok := s.colls[ns]; !ok {
+			s.colls[ns] = nil
+		}
+		return bson.D{{"ok", 1.0}}
+	case "listIndexes":
+		return cursorReply(ns, []bson.D{{{"v", int32(2)}, {"key", bson.D{{"_id", int32(1)}}}, {"name", "_id_"}}})
+	case "dropIndexes":
+		return bson.D{{"nIndexesWas", int32(1)}, {"ok", 1.0}}
+	case "dropDatabase":
+		for k := range s.colls {
+			if strings.HasPrefix(k, c.DB+".") {
+				delete(s.colls, k)
 			}
 		}
-		batch := bson.A{}
-		for _, r := range res {
-			batch = append(batch, clone(r))
-		}
-		return bson.D{{"cursor", bson.D{{"id", int64(0)}, {"ns", ns}, {"firstBatch", batch}}}, {"ok", 1.0}}
+		return bson.D{{"ok", 1.0}}
+	case "buildInfo", "buildinfo":
+		return bson.D{{"version", "5.0.0"}, {"versionArray", bson.A{int32(5), int32(0), int32(0), int32(0)}}, {"ok", 1.0}}
 	case "update":
 		n, nMod := 0, 0
 		var upserted bson.A
 		for i, d := range c.Seqs["updates"] {
 			q, _ := get(d, "q")
 			u, _ := get(d, "u")
+			if _, isPipeline := toArray(u); isPipeline {
+				panic(unsupported("update with a pipeline"))
+			}
 			up, _ := get(d, "upsert")
 			multi, _ := get(d, "multi")
 			found := false
@@ -487,7 +451,7 @@ func (s *Server) exec(c *Cmd) bson.D {
 				if b, _ := up.(bool); b {
 					nd := bson.D{}
 					for _, f := range q.(bson.D) {
-						if _, isOp := f.Value.(bson.D); !isOp {
+						if _, isOp := isOpDoc(f.Value); !isOp && !strings.HasPrefix(f.Key, "$") {
 							nd = append(nd, f)
 						}
 					}
@@ -513,9 +477,37 @@ func (s *Server) exec(c *Cmd) bson.D {
 		return r
 	case "findAndModify":
 		q, _ := get(c.Doc, "query")
+		if q == nil {
+			q = bson.D{}
+		}
 		u, _ := get(c.Doc, "update")
 		up, _ := get(c.Doc, "upsert")
 		nw, _ := get(c.Doc, "new")
+		if rm, _ := get(c.Doc, "remove"); rm == true {
+			hits := s.query(ns, q.(bson.D), subDoc(c.Doc, "sort"), 0, 1)
+			if len(hits) == 0 {
+				return bson.D{{"lastErrorObject", bson.D{{"n", int32(0)}}}, {"value", nil}, {"ok", 1.0}}
+			}
+			id, _ := get(hits[0], "_id")
+			var keep []bson.D
+			for _, e := range s.colls[ns] {
+				if eid, _ := get(e, "_id"); cmp(eid, id) != 0 {
+					keep = append(keep, e)
+				}
+			}
+			s.colls[ns] = keep
+			return bson.D{{"lastErrorObject", bson.D{{"n", int32(1)}}}, {"value", clone(hits[0])}, {"ok", 1.0}}
+		}
+		if _, isPipeline := toArray(u); isPipeline {
+			panic(unsupported("findAndModify with an update pipeline"))
+		}
+		if sp := subDoc(c.Doc, "sort"); len(sp) > 0 {
+			// with a sort the first match in sort order is modified
+			if hits := s.query(ns, q.(bson.D), sp, 0, 1); len(hits) == 1 {
+				id, _ := get(hits[0], "_id")
+				q = bson.D{{"_id", id}}
+			}
+		}
 		for j, e := range s.colls[ns] {
 			if match(e, q.(bson.D)) {
 				pre := clone(e)
@@ -550,7 +542,7 @@ func (s *Server) exec(c *Cmd) bson.D {
 		delete(s.colls, ns)
 		return bson.D{{"ok", 1.0}}
 	}
-	return bson.D{{"ok", 0.0}, {"errmsg", "no such command: " + c.Name}, {"code", int32(59)}, {"codeName", "CommandNotFound"}}
+	panic(unsupported("command " + c.Name))
 }
 
 func (s *Server) serve(c net.Conn, id int) {
@@ -700,6 +692,11 @@ func (s *Server) serve(c net.Conn, id int) {
 				defer func() {
 					if p := recover(); p != nil {
 						s.standInPanics++
+						if u, ok := p.(unsupported); ok {
+							fmt.Fprintf(os.NewFile(2, "/dev/stderr"), "HARNESS-INTERNAL-ERROR fakemongo was asked for something outside its subset (%s): %s\n", cmd.Key(), string(u))
+							reply = unsupportedReply(string(u))
+							return
+						}
 						fmt.Fprintf(os.NewFile(2, "/dev/stderr"), "HARNESS-INTERNAL-ERROR fakemongo panicked while executing %s: %v\n", cmd.Key(), p)
 						reply = bson.D{{Key: "ok", Value: 0.0}, {Key: "errmsg", Value: fmt.Sprintf("fakemongo internal error: %v", p)}, {Key: "code", Value: int32(8)}, {Key: "codeName", Value: "UnknownError"}}
 					}
